@@ -1,4 +1,5 @@
 import GoatSpec.Proofs.Walk
+import GoatSpec.Proofs.Legal
 /-! # C03 — every changed executable statement is guarded by a tracking point.
 
 Proved here for **line and func granularity**, for the first event of every scope at **scope
@@ -309,6 +310,74 @@ theorem line_guard_partial (f : File) (ranges : List (Nat × Nat)) (m : Marks)
       exact walkedL_ev hw
     exact events_marked_line env hg _ {} st (Inv.init env) hst l l (Or.inl ⟨hev, hch⟩)
       (skipComments_id env _ l hnc) hin
+
+/-- fields of an environment built by `mkEnv` (comment flags and function scopes of the file) -/
+theorem mkEnv_file (f : File) (g : Gran) (ranges : List (Nat × Nat)) (env : Env)
+    (h : mkEnv f g ranges = .ok env) :
+    env.comments = commentArray f.lineCodes ∧ functionScopes f = some env.funcs := by
+  unfold mkEnv at h
+  split at h
+  · cases h
+  · next fs hfs =>
+    dsimp only at h
+    split at h
+    · cases h
+    · split at h
+      · cases h
+      · cases h; exact ⟨rfl, hfs⟩
+
+/-- **C03, line granularity, on well-formed files: every changed statement the walk reaches is
+    guarded — no side condition left.** For every abstract file that meets the layout hypothesis
+    (`wfFile`, `linesInFuncOK`: what parsed gofmt output looks like), every changed-line set on
+    which the tracker terminates normally, every declared function with a multi-line body: a
+    marking statement that the statement walk reaches (through any nesting of if / else / for /
+    range / switch / select / case bodies, bare blocks, labels and multi-line function literals
+    in the entered expression positions) and whose first line is changed has a tracking block
+    directly before it. (`line_guard_partial` with its two side conditions — the line is not
+    comment-like and lies inside a function — discharged from the layout hypothesis by `chkL`.) -/
+theorem line_guard (f : File) (hwf : wfFile f = true) (hlf : linesInFuncOK f = true)
+    (ranges : List (Nat × Nat)) (m : Marks) (h : marks f .line ranges = .ok m)
+    (lb rb : Nat) (hne : lb ≠ rb) (p : Nat × Nat) (stmts : List Stmt)
+    (hd : Decl.funcDecl (some (lb, rb, some p, stmts)) ∈ f.decls)
+    (l : Nat) (hw : WalkedL l stmts)
+    (env : Env) (henv : mkEnv f .line ranges = .ok env)
+    (hch : env.isChanged l = .ok true) : l ∈ m.multi := by
+  obtain ⟨hcm, hfs⟩ := mkEnv_file f .line ranges env henv
+  simp only [wfFile, Bool.and_eq_true, List.all_eq_true] at hwf
+  obtain ⟨⟨hshape, hblks⟩, _⟩ := hwf
+  have hsh : shapeBody stmts = true := by
+    have := hshape _ hd; simpa [shapeD] using this
+  -- the statement line is a line of a reachable block of the file
+  have hcheck : CheckOK (fileBlks f) l := by
+    have hb0 : ∀ b ∈ declBlks (.funcDecl (some (lb, rb, some p, stmts))), b ∈ fileBlks f :=
+      fun b hb => List.mem_flatMap.mpr ⟨_, hd, hb⟩
+    rcases chkL stmts hsh l (walkedL_ev hw) with h1 | h1
+    · exact ⟨⟨lb, rb, entriesOf stmts, []⟩, hb0 _ (by simp only [declBlks]; exact List.mem_cons_self ..), h1, Or.inl hne⟩
+    · exact h1.mono (fun b hb => hb0 b (by simp only [declBlks]; exact List.mem_cons_of_mem _ hb))
+  obtain ⟨b, hb, hlb, hm⟩ := hcheck
+  have hbok := hblks b hb
+  have hlt : b.lo < b.hi := by
+    have hle : b.lo ≤ b.hi := by
+      have := hbok.1; simp only [blkOK, Bool.and_eq_true, decide_eq_true_eq] at this; exact this.1
+    rcases hm with hne' | hh
+    · omega
+    · have := hbok.2
+      simp only [forcedOK, Bool.or_eq_true, List.isEmpty_iff, decide_eq_true_eq] at this
+      rcases this with h1 | h1
+      · exact absurd h1 hh
+      · exact h1
+  obtain ⟨g1, g2, g3⟩ := blk_line_facts f b hbok.1 hlt l hlb
+  have hsz := blk_hi_le f b hbok.1 hlt
+  have hnc : env.isComment l = .ok false := by
+    have := isComment_of_codes env f hcm l (by omega) (by omega)
+    rwa [g3] at this
+  have hin : searchScopes env.funcs l ≠ 0 := by
+    simp only [linesInFuncOK, hfs, List.all_eq_true, Bool.or_eq_true, Bool.not_eq_true', decide_eq_false_iff_not,
+      bne_iff_ne, ne_eq] at hlf
+    rcases hlf b hb with h1 | h1
+    · exact absurd hlt h1
+    · exact h1 l hlb
+  exact line_guard_partial f ranges m h lb rb p stmts hd l hw env henv hch hnc hin
 
 /-- **C03, func granularity (partial: statements in the positions the walk enters).**
     For every abstract file and changed-line set on which the tracker terminates normally: a
